@@ -42,7 +42,7 @@ type c07Prof struct {
 
 // c07Case is the self-contained replay form of one case.
 type c07Case struct {
-	Kind      string     `json:"kind"`             // cli | scalen | scaleneg | normalize | compat | scaleprofiles
+	Kind      string     `json:"kind"`             // many | cli | scalen | scaleneg | normalize | compat | scaleprofiles
 	Stream    string     `json:"stream,omitempty"` // main | large | normalize-unaligned
 	Strategy  string     `json:"strategy,omitempty"`
 	Sources   []c07Prof  `json:"sources,omitempty"`
@@ -51,6 +51,10 @@ type c07Case struct {
 	Normalize bool       `json:"normalize,omitempty"`
 	Index     string     `json:"sample_index,omitempty"` // sample type name
 	Ratios    [][2]int64 `json:"ratios,omitempty"`       // scalen: num/den per column
+	// kind "many": Sources/Bases hold the distinct profiles, the plans say which one stands at each
+	// position of the (long) source and base lists
+	Plan     []int `json:"plan,omitempty"`
+	BasePlan []int `json:"base_plan,omitempty"`
 }
 
 // ---- fixed universe -------------------------------------------------------------------------
@@ -291,7 +295,7 @@ func runC07(c *Ctx) {
 		"permuted/partially overlapping sample types, units drawn per profile from one family (bytes..gb, ns..s, count), zeros in columns, |physical value| <= 2^46; " +
 		"modes plain/-base/-diff_base x -normalize x sample_index; strategies: random, self-difference, self-difference with converted units, zero next to unscaled non-zero; " +
 		"in half of the non-self-difference tuples the profiles come from different BUILDS: function/location/mapping ids, function start lines and file names, line numbers, addresses, mapping range/build id/file all differ, only names agree (entries must still combine by name); " +
-		"separate streams: large (|v|>2^53) and normalize-unaligned. In-process streams: ScaleN (integer/dyadic/zero ratios), Scale(-1) float path, Normalize, CompatibilizeSampleTypes, ScaleProfiles. " +
+		"separate streams: large (|v|>2^53) and normalize-unaligned; many-sources stream (in-process driver.PProf, own FlagSet): source and base LISTS of k*128+{-2..2} tiny profiles (k=1..3), same oracles. In-process streams: ScaleN (integer/dyadic/zero ratios), Scale(-1) float path, Normalize, CompatibilizeSampleTypes, ScaleProfiles. " +
 		"non-trivial = CLI case with >=2 profiles where at least two profiles share a stack, or in-process case with >=1 sample and a ratio != 1 / a reordering / a unit change; distinct by case JSON"
 	tmp, err := os.MkdirTemp(c.Dir, "tmp-c07-")
 	if err != nil {
@@ -326,6 +330,10 @@ func runC07(c *Ctx) {
 	for i := 0; i < 3000*c.Scale; i++ {
 		cases = append(cases, c07GenInproc(r, i))
 	}
+	rm := r.Fork()
+	for i := 0; i < 4*c.Scale; i++ {
+		cases = append(cases, c07GenMany(rm, i))
+	}
 	run.evalCases(cases)
 }
 
@@ -356,6 +364,8 @@ func (run *c07Run) evalCases(cases []*c07Case) {
 			if i < 2 {
 				c.Res.Sample(map[string]any{"kind": cs.Kind, "strategy": cs.Strategy, "mode": cs.Mode, "normalize": cs.Normalize, "sources": len(cs.Sources), "bases": len(cs.Bases), "index": cs.Index})
 			}
+		case "many":
+			c.Res.Count(key, run.checkMany(cs, run.caseDir(i)))
 		default:
 			nt := run.checkInproc(cs)
 			c.Res.Count(key, nt)
